@@ -19,16 +19,25 @@ def build_impl():
         wrap=schedlib.WRAP + schedlib.WRAP_IO)
 
 
+def build_impl_fast():
+    """The same driver without sanitizers / instrumentation at -O2 (-fwrapv: int overflow wraps, as in the
+    generated functions): only for pool cases with billions of getNextLoop() calls (header big=<K>)."""
+    return vlib.build_driver("C05_poolbig", ["C04_driver.cc"] + schedlib.SOURCES, variant="ndebug", components=("base", "net"),
+                             extra_flags=schedlib.IO_FLAGS + ["-fwrapv"], wrap=schedlib.WRAP + schedlib.WRAP_IO)
+
+
 # ------------------------------------------------------------------------------------ cases
 def acts_text(acts):
     return " ; ".join(acts) if acts else "-"
 
 
 def mkcase(cid, kind, source, prefix=(), threads=(), scripts=None, poller="epoll", pts=1, steps=4000, tag="",
-           n=0, calls=0, hashes=(), later=()):
+           n=0, calls=0, hashes=(), later=(), big=0, tail=0):
     hdr = "kind=%s poller=%s pts=%d steps=%d" % (kind, poller, pts, steps)
     if kind == "pool":
         hdr += " n=%d calls=%d" % (n, calls)
+        if big:
+            hdr += " big=%d tail=%d" % (big, tail)
     hdr += " sched=%s" % source
     ops = ["P " + acts_text(list(prefix))]
     for seg in later:
@@ -100,8 +109,9 @@ class LoopRun(schedlib.Run):
             if ln.startswith("STUCK"):
                 self.stuck = dict(t.split("=") for t in ln.split()[1:])
             elif ln.startswith("e ") and " UAF " in ln:
-                self.uaf = ln
-            elif ln.startswith(("pool ", "next", "hash", "ops")):
+                if self.uaf is None:      # the first access to the destroyed loop is the one that classifies
+                    self.uaf = ln
+            elif ln.startswith(("pool ", "next", "hash", "ops", "tail")):
                 self.extra.append(ln)
 
 
@@ -290,10 +300,12 @@ def oracle_quit(case, run, kind):
         if u is None:
             return None
         pos, ti, w = u
+        if "quit()" in w and "continues" in w:
+            return F4_KEY          # the loop died between the store of quit_ and isInLoopThread()/wakeup()
         if "quit()" in w:
-            return F4_KEY
+            return None            # quit() CALLED through a stale pointer to a loop destroyed earlier: not F-4
         loop_thread = 1 if kind == "elt" else 0
-        if "queueInLoop()" in w and any(p < pos and t == loop_thread and x[:2] == ["call", "quit"] for p, t, x in evs):
+        if ("queueInLoop()" in w or "runInLoop()" in w) and any(p < pos and t == loop_thread and x[:2] == ["call", "quit"] for p, t, x in evs):
             return OBS_QUEUE_AFTER_FUNCTOR_QUIT
         return None
 
@@ -421,6 +433,18 @@ def oracle_pool(case, run):
                 bad.append("hash code %d mapped to loops %d and %d" % (h, by_hash[h], x))
             if x != h % n:
                 bad.append("getLoopForHash(%d) returned loop %d, expected %d" % (h, x, h % n))
+    big = int(hdr_get(case.header, "big", "0"))
+    if big:
+        tl = next((ln.split() for ln in run.lines if ln.startswith("tail ")), None)
+        if tl is None:
+            bad.append("the long run of getNextLoop() calls produced no output")
+        else:
+            k0 = int(tl[1])
+            for i, x in enumerate(int(v) for v in tl[2:]):
+                if x != (k0 + i) % n:
+                    bad.append("round-robin: call %d of getNextLoop() returned loop %d, expected loop %d (N=%d; calls %d.. returned %s)"
+                               % (k0 + i + 1, x, (k0 + i) % n, n, k0 + 1, " ".join(tl[2:])))
+                    break
     ran = {}
     for pos, ti, w in events_of(run):
         if w[0] == "pooltask":
